@@ -237,6 +237,7 @@ theorem writeUint_spec (b b' : Builder) (v n : Nat) (hn : n ≤ 64) (h : b.write
 theorem writeInt_spec (b b' : Builder) (v : Int) (n : Nat) (h1 : 1 ≤ n) (hn : n ≤ 64)
     (lo : -(2 ^ (n - 1) : Int) ≤ v) (hi : v < (2 ^ (n - 1) : Int)) (h : b.writeInt v n = .ok b') :
     b' = b.app (intToBits n v) [] := by
+  rw [Builder.writeInt_repr _ _ _ h1 lo hi] at h
   have := Builder.writeBits_ok h
   rwa [intBitsGo_eq n v h1 hn lo hi] at this
 
